@@ -50,7 +50,7 @@ type c13live struct {
 type c13world struct {
 	c       *Ctx
 	schemas []*c13schema
-	tsSpec  []int // corpus indices overridden in TypeSchemas
+	tsSpec  []string // names (in TSTypes) overridden in TypeSchemas
 	ignore  bool
 }
 
@@ -81,8 +81,8 @@ func (w *c13world) build() (*c13live, string) {
 	l.opts = &jsonschema.ForOptions{IgnoreInvalidTypes: w.ignore}
 	if len(w.tsSpec) > 0 {
 		l.opts.TypeSchemas = map[reflect.Type]*jsonschema.Schema{}
-		for k, ti := range w.tsSpec {
-			l.opts.TypeSchemas[TypeCorpus[ti].T] = &jsonschema.Schema{Type: "object", Title: fmt.Sprintf("override%d", k),
+		for k, tn := range w.tsSpec {
+			l.opts.TypeSchemas[TSTypes[tn]] = &jsonschema.Schema{Type: "object", Title: fmt.Sprintf("override%d", k),
 				Properties: map[string]*jsonschema.Schema{"o": {Type: "string"}}}
 		}
 	}
@@ -190,19 +190,14 @@ func genC13World(c *Ctx) *c13world {
 		}
 		w.schemas = append(w.schemas, s)
 	}
+	tsSeen := map[string]bool{}
 	for i := c.W(4); i > 0; i-- {
-		w.tsSpec = append(w.tsSpec, corpusIndex(pick(c, []string{"tInner", "TExp", "time.Time", "tTags", "tNamedString", "tBasic"})))
-	}
-	// de-duplicate
-	seen := map[int]bool{}
-	var ts []int
-	for _, t := range w.tsSpec {
-		if t >= 0 && !seen[t] {
-			seen[t] = true
-			ts = append(ts, t)
+		n := pick(c, sortedKeys(TSTypes))
+		if !tsSeen[n] {
+			tsSeen[n] = true
+			w.tsSpec = append(w.tsSpec, n)
 		}
 	}
-	w.tsSpec = ts
 	w.ignore = c.W(2) == 0
 	return w
 }
